@@ -40,7 +40,8 @@
 EXTENDS MatrixBase
 
 CONSTANTS Versions,
-          MaxFaults      \* how many required servers carry a fault at once (1 or 2)
+          MaxFaults,     \* how many required servers carry a fault at once (1 or 2)
+          SourceVersions \* room versions for which the key sources are varied
 
 Servers == {"s1", "s2", "s3", "s4", "sx"}
 MemberKinds == {"join", "invite", "leave", "ban", "knock"}
@@ -53,8 +54,16 @@ TimeGood == {"vu_eq", "exp_later"}
 OtherModes == {"absent", "ok", "corrupt"}    \* what every server that is not required carries
 TimeModes == {"normal", "future6d", "future8d"}
 
-VARIABLES ver, ev, sig, tm, verdict, phase
-vars == <<ver, ev, sig, tm, verdict, phase>>
+\* Where the verifier's keys come from (the key ring: a database, then key fetchers for what the database lacks
+\* or holds past its valid_until_ts).  src[s] says where the keys of server s are: in the database, or only at
+\* the fetcher.  vol: the fetcher, whenever it is asked for anything, also hands out an unexpired copy (valid
+\* for a day from now) of every key of a required server that the database holds - asked for or not.
+\*   - a key the database holds as EXPIRED is final: expired_ts decides, whatever a fetcher says later;
+\*   - a key held with a valid_until_ts in the past is asked for again: the fresher copy legitimately extends
+\*     its validity (state after_vu then counts as ok);
+\*   - anything else the fetcher volunteers changes nothing.
+VARIABLES ver, ev, sig, tm, src, vol, verdict, phase
+vars == <<ver, ev, sig, tm, src, vol, verdict, phase>>
 
 \* --- the property sentence -----------------------------------------------------------------------
 Required(v, e) ==
@@ -70,6 +79,10 @@ Good(st, t, v) ==
            [] st = "exp_later" -> TRUE
            [] st = "after_vu" -> ~StrictKeyValidity(v)
            [] OTHER -> FALSE
+
+\* what the verifier ends up knowing about the key behind the signature of s
+Eff(st, where, volunteered) == IF st = "after_vu" /\ volunteered /\ where = "db" THEN "ok" ELSE st
+EffSig(sg, sr, vl) == [s \in Servers |-> Eff(sg[s], sr[s], vl)]
 
 Verify(v, e, sg, t) == \A s \in Required(v, e) : Good(sg[s], t, v) = TRUE
 
@@ -101,22 +114,34 @@ Assignments(v, e) ==
        \cup {mk(f, o) : f \in one, o \in (IF MaxFaults < 2 THEN {"absent", "ok"} ELSE OtherModes)}
        \cup {mk(f, o) : f \in two, o \in {"absent", "ok"}}
 
+AllDB == [s \in Servers |-> "db"]
+\* key sources: everything in the database and a silent fetcher; or one required server's keys (with two
+\* faults at once: any set of required servers') only at the fetcher, and / or a volunteering fetcher.  Varied
+\* where it can matter: some required server signed, the other servers are silent.
+Sources(v, e, a) ==
+    LET R == Required(v, e)
+        sets == IF MaxFaults < 2 THEN {{}} \cup {{r} : r \in R} ELSE SUBSET R
+    IN IF v \in SourceVersions /\ ~PseudoIDs(v) /\ (\E s \in R : a[s] # "absent") /\ (\A s \in Servers \ R : a[s] = "absent")
+       THEN {<<[s \in Servers |-> IF s \in F THEN "fetcher" ELSE "db"], vl>> : F \in sets, vl \in BOOLEAN}
+       ELSE {<<AllDB, FALSE>>}
+
 Init ==
     /\ \E v \in Versions : \E e \in Events(v) :
           /\ ver = v
           /\ ev = e
-          /\ \/ (\E a \in Assignments(v, e) : sig = a /\ tm = "normal")
+          /\ \/ (\E a \in Assignments(v, e) : \E k \in Sources(v, e, a) :
+                    sig = a /\ tm = "normal" /\ src = k[1] /\ vol = k[2])
              \/ (~PseudoIDs(v) /\ sig = [s \in Servers |-> IF s \in Required(v, e) THEN "ok" ELSE "absent"]
-                 /\ tm \in {"future6d", "future8d"})
+                 /\ tm \in {"future6d", "future8d"} /\ src = AllDB /\ vol = FALSE)
     /\ verdict = FALSE
     /\ phase = "init"
 
 \* VerifyEventSignatures
 Check ==
     /\ phase = "init"
-    /\ verdict' = Verify(ver, ev, sig, tm)
+    /\ verdict' = Verify(ver, ev, EffSig(sig, src, vol), tm)
     /\ phase' = "done"
-    /\ UNCHANGED <<ver, ev, sig, tm>>
+    /\ UNCHANGED <<ver, ev, sig, tm, src, vol>>
 
 Next == Check
 Spec == Init /\ [][Next]_vars
@@ -129,11 +154,15 @@ TypeOK == /\ ev.kind \in Kinds /\ ev.tsrv \in Servers /\ ev.asrv \in Servers /\ 
           /\ \A s \in Servers : sig[s] \in GoodStates \cup Faults
           /\ tm \in TimeModes
 \* succeeds exactly when every required server validly signed
-PExact == Done => (verdict <=> \A s \in R : Good(sig[s], tm, ver) = TRUE)
+PExact == Done => (verdict <=> \A s \in R : Good(Eff(sig[s], src[s], vol), tm, ver) = TRUE)
+\* an expired key is final, and where the keys come from matters only to a key held past its valid_until_ts
+PSources == Done => /\ (\A s \in R : sig[s] = "expired" => ~verdict)
+                    /\ ((\A s \in R : sig[s] # "after_vu") => verdict = Verify(ver, ev, sig, tm))
+                    /\ (~vol => verdict = Verify(ver, ev, sig, tm))
 \* a missing / corrupted / wrong-key / out-of-validity signature from any one required server makes it fail
 POneBad == Done => (\A s \in R : sig[s] \in {"absent", "corrupt", "stale", "wrongkey", "unknownkey", "expired"} => ~verdict)
 \* signatures of other servers never matter
-POthers == Done => verdict = Verify(ver, ev, [s \in Servers |-> IF s \in R THEN sig[s] ELSE "absent"], tm)
+POthers == Done => verdict = Verify(ver, ev, [s \in Servers |-> IF s \in R THEN Eff(sig[s], src[s], vol) ELSE "absent"], tm)
 \* sanity of Required
 PRequired ==
     /\ "s1" \in R
